@@ -24,8 +24,9 @@
          cJSON_InsertItemInArray.  On the member list they are [remove_nth] and [insert_nth]; the first
          agrees with [spec_detach_index] ([bridge_detach_index]); the second agrees with [spec_insert] for
          indices 0..length and REFUSES past the end where the core function appends
-         ([bridge_insert_in_range], [insert_past_end_differs]).  Their heap-level refinement is NOT a
-         consequence of C06 (see [tier_b_presupposition], remark).
+         ([bridge_insert_in_range], [insert_past_end_differs]).  Their heap-level refinement is not a
+         consequence of C06; it is proved separately in TierBridgeUtils.v (transliteration:
+         TierBridgeUtilsDefs.v).
     (D2) [overwrite_item] (replace the root in place) has no core counterpart; not bridged.
     (D3) Allocation failure is not modelled at Tier B: the lemmas for add/replace are stated for a
          successful copy of the key ([copy = Some nk]).
